@@ -12,7 +12,7 @@
    [at_text data p txt]: p is such a position and the input continues there with txt. *)
 From Verif.Base Require Import Bytes.
 From Verif.Module Require Import Path.
-From Verif.Modfile Require Import Syntax Lex Parse Directives ModulePath ProofsLex ProofsParse ProofsDirectives.
+From Verif.Modfile Require Import Syntax Lex Parse Directives ModulePath ProofsLex ProofsParse ProofsDirectives LaxRetract LaxStrict LaxIgnore.
 
 (* the model never runs out of its recursion budget *)
 Theorem C20_parse_fuel_enough : forall data, parse data <> POutOfFuel.
@@ -91,22 +91,17 @@ Proof. eexists. split; [vm_compute; reflexivity|reflexivity]. Qed.
    (strict = false), [parse_work fix data] models ParseWork; [fix = None] is Go's fix == nil.
    [core f] = (module path + deprecation, go version, requires, retracts) of a File. *)
 
-(* The strict parser's successes are successes of the lax parser, with the same core.
-   Proved for fix = nil.  Full statement (any fixer), NOT proved — fixRetract re-reads the
-   rewritten tokens of the retract lines, the proof needs the additional invariant that the
-   strict and the lax run rebuild every retract statement identically:
-
-     Theorem C20_strict_implies_lax_same_core : forall fix data f,
-       parse_to_file true fix data = DOk f ->
-       exists f', parse_to_file false fix data = DOk f' /\ core f = core f'.
-
-   The Go oracle "strict-implies-lax-same-core" evaluates it with fix = nil and with the
-   canonicalising fixer on every generated file. *)
-Theorem C20_strict_implies_lax_same_core_partial : forall data f,
-  parse_to_file true None data = DOk f ->
-  exists f', parse_to_file false None data = DOk f' /\ core f = core f'.
-Proof. exact strict_implies_lax_same_core_nofix_data. Qed.
-Print Assumptions C20_strict_implies_lax_same_core_partial.
+(* The strict parser's successes are successes of the lax parser, with the same core, for
+   every version fixer ([fx : fixer = option (path -> version -> option version)], None = nil).
+   fixRetract re-reads the rewritten tokens of the retract lines through the Syntax
+   pointers of f.Retract; the proof (Modfile/LaxRetract.v, LaxStrict.v) shows that these
+   pointers are pairwise distinct and that the strict and the lax run rebuild every
+   retract line identically. *)
+Theorem C20_strict_implies_lax_same_core : forall (fx : fixer) data f,
+  parse_to_file true fx data = DOk f ->
+  exists f', parse_to_file false fx data = DOk f' /\ core f = core f'.
+Proof. exact strict_implies_lax_same_core_data. Qed.
+Print Assumptions C20_strict_implies_lax_same_core.
 
 Example C20_strict_lax_example :
   exists f, parse_to_file true None (B "module example.com/m
@@ -116,25 +111,87 @@ retract [v1.0.0, v1.1.0] // broken
 ") = DOk f /\ length (fd_require f) = 1%nat /\ length (fd_retract f) = 1%nat.
 Proof. eexists. split; [vm_compute; reflexivity|split; reflexivity]. Qed.
 
-(* the directive layer never reports an internal error either (ParseWork: any fixer;
-   Parse/ParseLax: proved for fix = nil, the fixRetract loop with a fixer is not covered) *)
+(* the directive layer never reports an internal error either, whatever the fixer: the
+   index expressions x.Token[0] of parseToFile and r.Syntax.Token / args[0] of fixRetract
+   never fault (every Syntax pointer of f.Retract denotes a rebuilt line with a token) *)
 Theorem C20_parse_work_no_internal_error : forall fx data,
   parse_work fx data <> DPanic /\ parse_work fx data <> DFuel.
 Proof. exact parse_work_no_panic. Qed.
 Print Assumptions C20_parse_work_no_internal_error.
 
-Theorem C20_parse_to_file_no_internal_error_partial : forall strict data,
-  parse_to_file strict None data <> DPanic /\ parse_to_file strict None data <> DFuel.
-Proof. exact parse_to_file_no_panic_nofix. Qed.
-Print Assumptions C20_parse_to_file_no_internal_error_partial.
+Theorem C20_parse_to_file_no_internal_error : forall strict (fx : fixer) data,
+  parse_to_file strict fx data <> DPanic /\ parse_to_file strict fx data <> DFuel.
+Proof. exact parse_to_file_no_panic. Qed.
+Print Assumptions C20_parse_to_file_no_internal_error.
 
-(* lax_ignores_unknown and modulepath_agrees: stated, NOT proved in Coq; decided by the Go
-   oracles "lax-ignores-unknown" and "modulepath-agrees-with-strict" and by the
-   correspondence of ParseLax / ModulePath with the model.
+(* lax_ignores_unknown.  ParseLax (parseToFile with strict = false; there is no lax mode for
+   go.work) does not look at the statements for which [ignorable] (Modfile/LaxIgnore.v) is true:
+     ignorable (Line)         = its first token is not go, module, retract or require
+     ignorable (LineBlock)    = it has more than one token before "(", or its token is not
+                                module, retract or require ("go ( ... )" is not interpreted)
+     ignorable (CommentBlock) = true
+   For every [keep] that drops only ignorable statements (in particular: drop all of them, or
+   all but the comment blocks), ParseLax of the file and ParseLax of the tree restricted to
+   the kept statements have the [same_outcome]: both succeed with the same
+     core_vals f = (module path/version + deprecation, go version,
+                    requires (path, version, indirect), retracts (low, high, rationale))
+   or both fail with the same list of error positions.  ([core_vals] leaves out the Syntax
+   pointers, which are statement indices and shift when statements are removed.)  Any fixer. *)
+Theorem C20_lax_ignores_unknown : forall (fx : fixer) (keep : expr -> bool) data syn,
+  (forall x, keep x = false -> ignorable x = true) ->
+  parse data = POk syn ->
+  match parse_to_file false fx data,
+        file_of_syntax false fx (mkFile (f_name syn) (f_comments syn) (filter keep (f_stmt syn))) with
+  | DOk f, DOk f' => core_vals f = core_vals f'
+  | DErrs e, DErrs e' => e = e'
+  | DPanic, DPanic => True
+  | _, _ => False
+  end.
+Proof. exact lax_ignores_unknown_data. Qed.
+Print Assumptions C20_lax_ignores_unknown.
 
-     lax_ignores_unknown : dropping from the tree every Line whose first token is not one
-       of go, module, retract, require and every LineBlock whose tokens are not exactly one
-       of module, retract, require leaves the values of parse_to_file false fix unchanged.
+(* [ignorable] is what the comment says *)
+Example C20_ignorable_line : forall l verb args, l_token l = verb :: args ->
+  ignorable (ELine l) =
+  negb (str_eqb verb (B "go") || str_eqb verb (B "module") || str_eqb verb (B "retract") || str_eqb verb (B "require")).
+Proof. intros l verb args E. unfold ignorable. rewrite E. reflexivity. Qed.
+
+Example C20_ignorable_block : forall b verb, b_token b = [verb] ->
+  ignorable (EBlock b) =
+  negb (str_eqb verb (B "module") || str_eqb verb (B "retract") || str_eqb verb (B "require")).
+Proof.
+  intros b verb E. unfold ignorable. rewrite E. unfold known_mod_block, is_core, is_verb.
+  destruct (str_eqb verb (B "go")) eqn:Ego.
+  - apply str_eqb_eq in Ego. subst verb. reflexivity.
+  - destruct (str_eqb verb (B "module")), (str_eqb verb (B "retract")), (str_eqb verb (B "require")),
+      (str_eqb verb (B "godebug")), (str_eqb verb (B "exclude")), (str_eqb verb (B "replace")),
+      (str_eqb verb (B "tool")); reflexivity.
+Qed.
+
+(* non-vacuity: a file with an unknown directive, an exclude and a replace block *)
+Example C20_lax_ignores_example :
+  exists syn f f',
+    parse (B "module example.com/m
+frobnicate 1 2 3
+exclude example.com/x v1.0.0
+require example.com/a v1.2.3
+replace (
+	example.com/a => ../a
+)
+") = POk syn /\ length (f_stmt syn) = 5%nat /\
+    length (filter (fun x => negb (ignorable x)) (f_stmt syn)) = 2%nat /\
+    file_of_syntax false None syn = DOk f /\
+    file_of_syntax false None (mkFile (f_name syn) (f_comments syn)
+                                      (filter (fun x => negb (ignorable x)) (f_stmt syn))) = DOk f' /\
+    core_vals f = core_vals f' /\ length (fd_require f) = 1%nat.
+Proof.
+  eexists. eexists. eexists. split; [vm_compute; reflexivity|].
+  split; [reflexivity|]. split; [vm_compute; reflexivity|].
+  split; [vm_compute; reflexivity|]. split; [vm_compute; reflexivity|]. split; reflexivity.
+Qed.
+
+(* modulepath_agrees: stated, NOT proved in Coq; decided by the Go oracle
+   "modulepath-agrees-with-strict" and by the correspondence of ModulePath with the model.
 
      modulepath_agrees : parse_to_file true fix data = DOk f -> fd_module f = Some m ->
        snd (md_syntax m) = None (single line) -> check_import_path (path m) = None ->
